@@ -56,6 +56,12 @@ int main(int argc, char** argv) {
             chk("ID(udot)=M*udot+ID(0)", nu ? (r0 - MUD - b0).norm() : 0, nu ? r0.norm() : 0, seed, k, rs, zeroU);
             Vector ud0, Mud0; Vector_<SpatialVec> A0; m.calcAccelerationIgnoringConstraints(s, f0, F0, ud0, A0); m.multiplyByM(s, ud0, Mud0);
             chk("M*FD(0)=-ID(0)", nu ? (Mud0 + b0).norm() : 0, nu ? b0.norm() : 0, seed, k, rs, zeroU);
+            // body-to-mobility force mapping: J'F - inertial = -ID(udot=0, f=0, F), and M^-1 of it is FD(0,F)
+            { Vector feq, rz, udF, mieq; Vector_<SpatialVec> A3;
+              m.calcTreeEquivalentMobilityForces(s, FB, feq); m.calcResidualForceIgnoringConstraints(s, f0, FB, zero, rz);
+              chk("equivalentMobilityForces=-ID(0,F)", nu ? (feq + rz).norm() : 0, nu ? rz.norm() : 0, seed, k, rs, zeroU);
+              m.calcAccelerationIgnoringConstraints(s, f0, FB, udF, A3); m.multiplyByMInv(s, feq, mieq);
+              chk("FD(0,F)=MInv(equivalentMobilityForces)", nu ? (udF - mieq).norm() : 0, nu ? udF.norm() : 0, seed, k, rs, zeroU); }
             // M^-1
             Vector mi, Mmi; m.multiplyByMInv(s, MF, mi); m.multiplyByM(s, mi, Mmi);
             chk("M*MInv(f)=f", nu ? (Mmi - MF).norm() : 0, nu ? MF.norm() : 0, seed, k, rs, zeroU);
